@@ -175,6 +175,8 @@ type tabEnt struct {
 	used bool
 }
 
+var warmOnce sync.Once
+
 var (
 	cur      atomic.Pointer[rt]
 	epochCtr atomic.Uint32
@@ -185,10 +187,14 @@ var (
 // simulated runs: outside an active run every shim operation is a no-op
 // instead of falling back to the real primitive. (Goroutines of a finished run
 // that are unwinding must never touch a real primitive they did not acquire.)
+//
+//go:norace
 func SetSimProcess(v bool) { simProc.Store(v) }
 
 // Mode tells a shim what to do: 0 = use the real primitive, 1 = simulated,
 // 2 = no-op (run over / outside run in a sim process).
+//
+//go:norace
 func Mode() int {
 	r := cur.Load()
 	if r == nil {
@@ -208,6 +214,7 @@ func Mode() int {
 	return 1
 }
 
+//go:norace
 func reapIfStraggler(r *rt) {
 	if goid() != r.gs[0].goid {
 		runtime.Goexit()
@@ -215,11 +222,14 @@ func reapIfStraggler(r *rt) {
 }
 
 // Active reports whether a simulated run is in progress.
+//
+//go:norace
 func Active() bool {
 	r := cur.Load()
 	return r != nil && !r.stopped
 }
 
+//go:norace
 func splitmix(x uint64) uint64 {
 	x += 0x9e3779b97f4a7c15
 	x = (x ^ (x >> 30)) * 0xbf58476d1ce4e5b9
@@ -228,11 +238,15 @@ func splitmix(x uint64) uint64 {
 }
 
 // Mix is the stateless hash used for every derived decision.
+//
+//go:norace
 func Mix(a, b uint64) uint64 { return splitmix(splitmix(a) ^ (b * 0xd6e8feb86659fd93)) }
 
 // Start begins a simulated run. It must be called inside a synctest bubble by
 // the root goroutine of the run, which becomes managed goroutine 0 and holds
 // the run token.
+//
+//go:norace
 func Start(cfg Config) {
 	if cfg.MaxSteps == 0 {
 		cfg.MaxSteps = 3_000_000
@@ -243,6 +257,10 @@ func Start(cfg Config) {
 	if cfg.StallMaxMs == 0 {
 		cfg.StallMaxMs = 1500
 	}
+	// the standard library initialises some state lazily on first use (time's godebug setting behind a
+	// sync.Once): do that here, visibly to the race detector, not later inside a RaceDisable section where
+	// the Once's release would be dropped and every later reader would look racy
+	warmOnce.Do(func() { time.NewTimer(time.Hour).Stop(); time.NewTicker(time.Hour).Stop(); <-time.After(0) })
 	raceDisable()
 	r := &rt{cfg: cfg, token: -1}
 	r.epoch = epochCtr.Add(1)
@@ -253,8 +271,10 @@ func Start(cfg Config) {
 	g := r.register(goid())
 	r.token = g.id
 	cur.Store(r)
-	go r.loop()
 	raceEnable()
+	// started outside the RaceDisable section: a goroutine created while synchronisation events are ignored
+	// does not inherit its creator's happens-before history
+	go r.loop()
 }
 
 // Stop ends the run and returns its statistics. It must be called by the root
@@ -262,6 +282,8 @@ func Start(cfg Config) {
 // poison flag: they unwind with runtime.Goexit and every shim operation they
 // perform while unwinding is a no-op. Stop returns after they have finished
 // unwinding (or blocked in something that is not ours).
+//
+//go:norace
 func Stop() Stats {
 	r := cur.Load()
 	if r == nil {
@@ -307,6 +329,8 @@ func Stop() Stats {
 // Aborted reports whether the scheduler gave up on the run (stuck or over
 // budget). After an abort every shim operation is a no-op and the root
 // goroutine is expected to call Stop promptly.
+//
+//go:norace
 func Aborted() bool {
 	r := cur.Load()
 	if r == nil {
@@ -321,6 +345,8 @@ func Aborted() bool {
 }
 
 // Epoch identifies the current run.
+//
+//go:norace
 func Epoch() uint32 {
 	r := cur.Load()
 	if r == nil {
@@ -329,6 +355,7 @@ func Epoch() uint32 {
 	return r.epoch
 }
 
+//go:norace
 func (r *rt) register(id uint64) *gstate {
 	if r.ng >= MaxG {
 		panic("simrt: too many goroutines")
@@ -342,6 +369,7 @@ func (r *rt) register(id uint64) *gstate {
 	return g
 }
 
+//go:norace
 func (r *rt) tabPut(id uint64, idx int32) {
 	h := int(splitmix(id) & 2047)
 	for i := 0; i < 2048; i++ {
@@ -357,6 +385,8 @@ func (r *rt) tabPut(id uint64, idx int32) {
 }
 
 // tabDel forgets a goroutine key (tombstone: the slot stays used with key 0).
+//
+//go:norace
 func (r *rt) tabDel(id uint64) {
 	h := int(splitmix(id) & 2047)
 	for i := 0; i < 2048; i++ {
@@ -372,6 +402,7 @@ func (r *rt) tabDel(id uint64) {
 	}
 }
 
+//go:norace
 func (r *rt) tabGet(id uint64) int32 {
 	h := int(splitmix(id) & 2047)
 	for i := 0; i < 2048; i++ {
@@ -388,6 +419,8 @@ func (r *rt) tabGet(id uint64) int32 {
 
 // self returns the managed state of the calling goroutine, adopting it if it
 // was not started through Go. Caller holds r.mu.
+//
+//go:norace
 func (r *rt) self() *gstate {
 	id := goid()
 	idx := r.tabGet(id)
@@ -398,6 +431,7 @@ func (r *rt) self() *gstate {
 	return r.register(id)
 }
 
+//go:norace
 func (r *rt) enabled(g *gstate, now int64) bool {
 	if g.deadline != 0 && now >= g.deadline {
 		return true
@@ -431,6 +465,8 @@ func (r *rt) enabled(g *gstate, now int64) bool {
 }
 
 // decidePreempt is evaluated at every yield point of the token holder.
+//
+//go:norace
 func (r *rt) decidePreempt() bool {
 	if r.cfg.Explicit {
 		for r.explicit < len(r.cfg.Steps) && r.cfg.Steps[r.explicit] < r.step {
@@ -448,6 +484,7 @@ func (r *rt) decidePreempt() bool {
 	return uint32(Mix(r.cfg.Seed, uint64(r.step))%1_000_000) < r.cfg.PreemptPPM
 }
 
+//go:norace
 func (r *rt) fold(a, b, c uint64) {
 	r.stats.Hash = splitmix(r.stats.Hash ^ (a*1000003 + b*10007 + c))
 }
@@ -469,6 +506,8 @@ type wait struct {
 // once the calling goroutine holds the run token and its wait condition holds
 // (or its deadline passed). It returns false if the run is over: the caller
 // must then treat its operation as a no-op.
+//
+//go:norace
 func (r *rt) yield(site int, w *wait) bool {
 	raceDisable()
 	r.mu.Lock()
@@ -540,6 +579,8 @@ func (r *rt) yield(site int, w *wait) bool {
 }
 
 // unwait clears wait bookkeeping once g proceeds. Caller holds r.mu.
+//
+//go:norace
 func (r *rt) unwait(g *gstate) {
 	if g.pendingW {
 		g.pendingW = false
@@ -552,6 +593,8 @@ func (r *rt) unwait(g *gstate) {
 
 // abort stops scheduling and lets the root goroutine run on alone.
 // Caller holds r.mu; abort releases it.
+//
+//go:norace
 func (r *rt) abort() {
 	r.stopped = true
 	r.aborted = true
@@ -568,6 +611,7 @@ func (r *rt) abort() {
 	}
 }
 
+//go:norace
 func (r *rt) loop() {
 	raceDisable()
 	defer close(r.schedDone)
@@ -699,6 +743,8 @@ func (r *rt) loop() {
 var plainWait = wait{kind: wNone}
 
 // Yield is a plain scheduling point. It reports false when the run is over.
+//
+//go:norace
 func Yield(site int) bool {
 	r := cur.Load()
 	if r == nil {
@@ -710,9 +756,13 @@ func Yield(site int) bool {
 
 // Go starts fn as a managed goroutine. The logical id is assigned by the
 // parent (which holds the token), so ids are deterministic.
+//
+//go:norace
 func Go(fn func()) { GoID(fn) }
 
 // GoID is Go returning the logical id of the new goroutine (-1 outside a run).
+//
+//go:norace
 func GoID(fn func()) int32 {
 	r := cur.Load()
 	if r == nil {
@@ -751,6 +801,7 @@ func GoID(fn func()) int32 {
 	return idx
 }
 
+//go:norace
 func goMain(r *rt, idx int32, fn func()) {
 	raceDisable()
 	r.mu.Lock()
@@ -773,6 +824,8 @@ func goMain(r *rt, idx int32, fn func()) {
 // goRecover records a panic that escaped a managed goroutine. In production it
 // would have killed the server process; under simulation the run goes on so
 // that the harness can report it with the schedule that produced it.
+//
+//go:norace
 func goRecover(r *rt, idx int32) {
 	if p := recover(); p != nil {
 		buf := make([]byte, 2048)
@@ -787,6 +840,8 @@ func goRecover(r *rt, idx int32) {
 
 // EscapedPanic returns the first panic that escaped a managed goroutine of the
 // current (or just stopped) run, or "".
+//
+//go:norace
 func EscapedPanic() string {
 	r := cur.Load()
 	if r == nil {
@@ -797,6 +852,7 @@ func EscapedPanic() string {
 	return r.escaped
 }
 
+//go:norace
 func goExit(r *rt, idx int32) {
 	raceReleaseDone(r, idx)
 	raceDisable()
@@ -811,6 +867,8 @@ func goExit(r *rt, idx int32) {
 }
 
 // NextG returns the logical id the next Go call will assign (for Join ranges).
+//
+//go:norace
 func NextG() int32 {
 	r := cur.Load()
 	if r == nil {
@@ -827,6 +885,8 @@ func NextG() int32 {
 // Join parks the caller until all goroutines with ids in [lo,hi) have
 // finished or the simulated timeout (if > 0) elapsed. It reports whether all
 // finished.
+//
+//go:norace
 func Join(lo, hi int32, timeout time.Duration) bool {
 	r := cur.Load()
 	if r == nil {
@@ -859,6 +919,8 @@ func Join(lo, hi int32, timeout time.Duration) bool {
 
 // Sleep advances simulated time for the caller by d: the caller parks with a
 // deadline, so other goroutines run and timers fire meanwhile.
+//
+//go:norace
 func Sleep(d time.Duration) {
 	r := cur.Load()
 	if r == nil {
@@ -872,6 +934,8 @@ func Sleep(d time.Duration) {
 }
 
 // GDone reports whether goroutine id has finished.
+//
+//go:norace
 func GDone(id int32) bool {
 	r := cur.Load()
 	if r == nil {
@@ -887,6 +951,8 @@ func GDone(id int32) bool {
 
 // EventSeq returns a fresh global event sequence number. It is a yield point,
 // so the numbers are totally ordered consistently with the schedule.
+//
+//go:norace
 func EventSeq() int64 {
 	r := cur.Load()
 	if r == nil {
@@ -907,6 +973,8 @@ func EventSeq() int64 {
 
 // Rand returns a deterministic value derived from the run seed and a label;
 // used by shims for map-order permutation. It is a yield point.
+//
+//go:norace
 func Rand(label uint64) uint64 {
 	r := cur.Load()
 	if r == nil {
@@ -929,6 +997,7 @@ func Rand(label uint64) uint64 {
 // primitives used by the ssync shims. Each returns handled=false when the shim
 // must use the real primitive (Mode 0).
 
+//go:norace
 func (m *Mu) fresh(r *rt) {
 	if m.epoch != r.epoch {
 		*m = Mu{epoch: r.epoch}
@@ -936,6 +1005,8 @@ func (m *Mu) fresh(r *rt) {
 }
 
 // MutexLock acquires m.
+//
+//go:norace
 func MutexLock(m *Mu) {
 	r := cur.Load()
 	if r == nil {
@@ -951,6 +1022,8 @@ func MutexLock(m *Mu) {
 }
 
 // MutexTryLock tries to acquire m.
+//
+//go:norace
 func MutexTryLock(m *Mu) bool {
 	r := cur.Load()
 	if r == nil {
@@ -970,6 +1043,8 @@ func MutexTryLock(m *Mu) bool {
 }
 
 // MutexUnlock releases m.
+//
+//go:norace
 func MutexUnlock(m *Mu) {
 	r := cur.Load()
 	if r == nil {
@@ -987,12 +1062,14 @@ func MutexUnlock(m *Mu) {
 	m.held = false
 }
 
+//go:norace
 func (m *RW) fresh(r *rt) {
 	if m.epoch != r.epoch {
 		*m = RW{epoch: r.epoch}
 	}
 }
 
+//go:norace
 func RWLock(m *RW) {
 	r := cur.Load()
 	if r == nil {
@@ -1008,6 +1085,7 @@ func RWLock(m *RW) {
 	raceAcquire(&m.r)
 }
 
+//go:norace
 func RWTryLock(m *RW) bool {
 	r := cur.Load()
 	if r == nil {
@@ -1027,6 +1105,7 @@ func RWTryLock(m *RW) bool {
 	return true
 }
 
+//go:norace
 func RWUnlock(m *RW) {
 	r := cur.Load()
 	if r == nil {
@@ -1044,6 +1123,7 @@ func RWUnlock(m *RW) {
 	m.w = false
 }
 
+//go:norace
 func RWRLock(m *RW) {
 	r := cur.Load()
 	if r == nil {
@@ -1058,6 +1138,7 @@ func RWRLock(m *RW) {
 	raceAcquire(m)
 }
 
+//go:norace
 func RWTryRLock(m *RW) bool {
 	r := cur.Load()
 	if r == nil {
@@ -1076,6 +1157,7 @@ func RWTryRLock(m *RW) bool {
 	return true
 }
 
+//go:norace
 func RWRUnlock(m *RW) {
 	r := cur.Load()
 	if r == nil {
@@ -1093,6 +1175,7 @@ func RWRUnlock(m *RW) {
 	m.r--
 }
 
+//go:norace
 func (c *Cv) fresh(r *rt) {
 	if c.epoch != r.epoch {
 		*c = Cv{epoch: r.epoch}
@@ -1103,6 +1186,8 @@ func (c *Cv) fresh(r *rt) {
 // window in which a broadcast made without holding L is lost) followed by
 // taking a ticket. Like the real implementation the waiter is enlisted before
 // L is released. ok=false means the run is over.
+//
+//go:norace
 func CondEnlist(c *Cv) (ticket uint32, ok bool) {
 	r := cur.Load()
 	if r == nil {
@@ -1119,6 +1204,8 @@ func CondEnlist(c *Cv) (ticket uint32, ok bool) {
 }
 
 // CondPark is the second half: block until the ticket has been signalled.
+//
+//go:norace
 func CondPark(c *Cv, ticket uint32) {
 	r := cur.Load()
 	if r == nil {
@@ -1131,6 +1218,7 @@ func CondPark(c *Cv, ticket uint32) {
 	raceAcquire(c)
 }
 
+//go:norace
 func CondSignal(c *Cv) {
 	r := cur.Load()
 	if r == nil {
@@ -1147,6 +1235,7 @@ func CondSignal(c *Cv) {
 	}
 }
 
+//go:norace
 func CondBroadcast(c *Cv) {
 	r := cur.Load()
 	if r == nil {
@@ -1161,12 +1250,14 @@ func CondBroadcast(c *Cv) {
 	c.head = c.tail
 }
 
+//go:norace
 func (w *Wg) fresh(r *rt) {
 	if w.epoch != r.epoch {
 		*w = Wg{epoch: r.epoch}
 	}
 }
 
+//go:norace
 func WGAdd(g *Wg, d int) {
 	r := cur.Load()
 	if r == nil {
@@ -1186,6 +1277,7 @@ func WGAdd(g *Wg, d int) {
 	}
 }
 
+//go:norace
 func WGWait(g *Wg) {
 	r := cur.Load()
 	if r == nil {
@@ -1199,6 +1291,7 @@ func WGWait(g *Wg) {
 	raceAcquire(g)
 }
 
+//go:norace
 func (o *On) fresh(r *rt) {
 	if o.epoch != r.epoch {
 		*o = On{epoch: r.epoch}
@@ -1207,6 +1300,8 @@ func (o *On) fresh(r *rt) {
 
 // OnceBegin reports whether the caller must run f. If it returns true the
 // caller must call OnceEnd afterwards.
+//
+//go:norace
 func OnceBegin(o *On) bool {
 	r := cur.Load()
 	if r == nil {
@@ -1225,6 +1320,7 @@ func OnceBegin(o *On) bool {
 	return true
 }
 
+//go:norace
 func OnceEnd(o *On) {
 	raceRelease(o)
 	o.done = true
@@ -1232,6 +1328,8 @@ func OnceEnd(o *On) {
 }
 
 // AtomicYield is the scheduling point in front of every shimmed atomic op.
+//
+//go:norace
 func AtomicYield() {
 	r := cur.Load()
 	if r == nil {
@@ -1244,6 +1342,8 @@ func AtomicYield() {
 // Abandon clears the current run without any hand-shaking. It is used by the
 // harness after the bubble itself died (synctest deadlock panic): every
 // goroutine of the run is blocked forever and unreachable.
+//
+//go:norace
 func Abandon() Stats {
 	r := cur.Load()
 	if r == nil {
@@ -1265,6 +1365,8 @@ func Abandon() Stats {
 // something the scheduler does not manage (channel operation, select, timer).
 // It is meaningful when called by the token holder: every other goroutine is
 // then parked, finished, or durably blocked.
+//
+//go:norace
 func RawBlocked(id int32) bool {
 	r := cur.Load()
 	if r == nil {
@@ -1280,6 +1382,8 @@ func RawBlocked(id int32) bool {
 }
 
 // Self returns the logical id of the calling goroutine.
+//
+//go:norace
 func Self() int32 {
 	r := cur.Load()
 	if r == nil {
@@ -1295,6 +1399,8 @@ func Self() int32 {
 
 // JoinIDs waits until every listed goroutine has finished or the simulated
 // timeout elapsed; it reports whether all finished.
+//
+//go:norace
 func JoinIDs(ids []int32, timeout time.Duration) bool {
 	deadline := time.Now().Add(timeout)
 	for {
@@ -1306,6 +1412,13 @@ func JoinIDs(ids []int32, timeout time.Duration) bool {
 			}
 		}
 		if all {
+			if r := cur.Load(); r != nil {
+				for _, id := range ids {
+					if id >= 0 {
+						raceAcquireDone(r, id) // goroutine exit happens before the join returns
+					}
+				}
+			}
 			return true
 		}
 		if Aborted() || !time.Now().Before(deadline) {
@@ -1326,6 +1439,8 @@ var (
 )
 
 // ProbeReset clears all probe counters (called at the start of a run).
+//
+//go:norace
 func ProbeReset() {
 	probeMu.Lock()
 	probeCur = map[string]int64{}
@@ -1334,6 +1449,8 @@ func ProbeReset() {
 }
 
 // ProbeAdd adds d to the named counter and tracks its maximum.
+//
+//go:norace
 func ProbeAdd(name string, d int64) {
 	probeMu.Lock()
 	if probeCur == nil {
@@ -1348,6 +1465,8 @@ func ProbeAdd(name string, d int64) {
 }
 
 // ProbeMax returns the maximum the named counter reached since ProbeReset.
+//
+//go:norace
 func ProbeMax(name string) int64 {
 	probeMu.Lock()
 	defer probeMu.Unlock()
@@ -1355,6 +1474,8 @@ func ProbeMax(name string) int64 {
 }
 
 // ProbeNames lists the counters that were touched.
+//
+//go:norace
 func ProbeNames() []string {
 	probeMu.Lock()
 	defer probeMu.Unlock()
@@ -1367,6 +1488,8 @@ func ProbeNames() []string {
 
 // SelectOrder returns which of n polling orders a rewritten select uses. It is
 // a scheduling point; outside simulated runs the source order (0) is used.
+//
+//go:norace
 func SelectOrder(n int) int {
 	if n <= 1 || Mode() != 1 {
 		return 0
